@@ -97,6 +97,12 @@ impl<CS: CLCiphersuite> Signature<CL03<CS>> {
     pub fn verify(&self, pk: &CL03PublicKey, a_bases: &Bases, message: &CL03Message) -> bool {
         let sign = self.cl03Signature();
 
+        // attributes are lm-bit non-negative integers: without this check (v * a^k, m + k * e)
+        // derived from a valid signature would verify as well
+        if message.value < 0 || message.value >= Integer::from(2).pow(CS::lm) {
+            return false;
+        }
+
         let lhs = Integer::from(sign.v.pow_mod_ref(&sign.e, &pk.N).unwrap());
 
         let rhs = (Integer::from(a_bases.0[0].pow_mod_ref(&message.value, &pk.N).unwrap())
@@ -127,6 +133,14 @@ impl<CS: CLCiphersuite> Signature<CL03<CS>> {
 
         let sign = self.cl03Signature();
 
+        // attributes are lm-bit non-negative integers (see verify)
+        if messages
+            .iter()
+            .any(|m| m.value < 0 || m.value >= Integer::from(2).pow(CS::lm))
+        {
+            return false;
+        }
+
         let lhs = Integer::from(sign.v.pow_mod_ref(&sign.e, &pk.N).unwrap());
 
         let mut rhs = Integer::from(1);
@@ -137,7 +151,7 @@ impl<CS: CLCiphersuite> Signature<CL03<CS>> {
 
         rhs = (&rhs * Integer::from(pk.b.pow_mod_ref(&sign.s, &pk.N).unwrap()) * &pk.c) % &pk.N;
 
-        if sign.e <= Integer::from(2).pow(CS::le - 1) {
+        if sign.e <= Integer::from(2).pow(CS::le - 1) || sign.e >= Integer::from(2).pow(CS::le) {
             return false;
         }
 
